@@ -945,6 +945,12 @@ class SimThread:
         s.switch()
 
     def is_alive(self):
+        s = self._env.sched
+        if s.active and self._env.yield_is_alive and s.current is s.main:
+            # real threads are pre-empted anywhere: between two statements of the parent's loop
+            # a worker may publish its results and end - asking for liveness is a point where
+            # the simulator lets that happen
+            s.switch_point()
         return self.task.state not in ('done', 'new')
 
     isAlive = is_alive
@@ -1068,6 +1074,8 @@ class Env:
         self.barrier_open = False
         # one run in five starts its children with freshly imported runner modules (an
         # exec()ed child shares no module state with its parent); knob overrides
+        ya = knobs.get('yield_is_alive')
+        self.yield_is_alive = bool(ya) if ya is not None else (spec.get('seed') or 0) % 3 != 0
         fc = knobs.get('fresh_child')
         self.fresh_child = bool(fc) if fc is not None else (spec.get('seed') or 0) % 5 == 0
 
@@ -1234,6 +1242,14 @@ class Env:
                     # right after the last report record (before the process exits)
                     last = max([i for i, r_ in enumerate(newtape) if r_[0] in ('E', 'C')] or [0])
                     pos = last + 1
+                elif e.get('in_report'):
+                    # a whole line from somebody else (a leftover thread, a C library) lands
+                    # between two lines of the report
+                    recs = [i for i, r_ in enumerate(newtape) if r_[0] == 'E' and
+                            closed_at is not None and i > closed_at]
+                    # (behind the header line: in front of it the line is just more noise)
+                    if len(recs) >= 3:
+                        pos = recs[2 + (e.get('pos', 0) % (len(recs) - 2))]
                 text = e['text'].encode('utf-8')
                 newtape.insert(pos, (e.get('stream', 'E'), text))
                 info['channel'].append(('noise', e.get('stream', 'E'), pos, len(text)))
